@@ -436,9 +436,9 @@ fn scalar(ty: &PType, w: &Wire, s: &Schema, what: &str) -> Result<PVal, String> 
             Wire::Varint(v) => return Err(format!("{what}: bool with value {v}")),
             _ => return Err(mismatch()),
         },
+        // a parser keeps the low 32 bits of a longer varint (protobuf encoding guide, "truncated to 32 bits")
         PType::UInt32 => match w {
-            Wire::Varint(v) if *v <= u32::MAX as u64 => PVal::U(*v),
-            Wire::Varint(v) => return Err(format!("{what}: uint32 with value {v}")),
+            Wire::Varint(v) => PVal::U(*v & 0xffff_ffff),
             _ => return Err(mismatch()),
         },
         PType::UInt64 => match w {
@@ -446,15 +446,18 @@ fn scalar(ty: &PType, w: &Wire, s: &Schema, what: &str) -> Result<PVal, String> 
             _ => return Err(mismatch()),
         },
         PType::SInt32 => match w {
-            Wire::Varint(v) if *v <= u32::MAX as u64 => PVal::I(zigzag(*v)),
-            Wire::Varint(v) => return Err(format!("{what}: sint32 with zig-zag value {v}")),
+            Wire::Varint(v) => PVal::I(zigzag(*v & 0xffff_ffff)),
             _ => return Err(mismatch()),
         },
         PType::SInt64 => match w {
             Wire::Varint(v) => PVal::I(zigzag(*v)),
             _ => return Err(mismatch()),
         },
-        PType::Int32 | PType::Int64 => match w {
+        PType::Int32 => match w {
+            Wire::Varint(v) => PVal::I(*v as u32 as i32 as i64),
+            _ => return Err(mismatch()),
+        },
+        PType::Int64 => match w {
             Wire::Varint(v) => PVal::I(*v as i64),
             _ => return Err(mismatch()),
         },
